@@ -624,6 +624,22 @@ func (a *DerArtifact) ApplyDer(t *Node, op, arg string, rng *rand.Rand) error {
 		} else {
 			t.LenMode = lenPad4
 		}
+	case "CutLocal":
+		// remove everything after the cut point inside every enclosing TLV (whose lengths are
+		// recomputed); the node itself keeps claiming its original content length
+		full := t.contentBytes()
+		for n := t; n.Parent != nil; n = n.Parent {
+			i := n.index()
+			n.Parent.Children = append([]*Node{}, n.Parent.Children[:i+1]...)
+		}
+		switch arg {
+		case "after-header":
+			t.LenMode, t.RawLen = lenRaw, EncodeLength(len(full))
+			t.Children, t.Content, t.BitPrefix, t.Wrapped, t.RawContent = nil, nil, nil, false, []byte{}
+		case "in-body":
+			t.LenMode, t.RawLen = lenRaw, EncodeLength(len(full))
+			t.Children, t.Content, t.BitPrefix, t.Wrapped, t.RawContent = nil, nil, nil, false, append([]byte{}, full[:len(full)/2]...)
+		}
 	case "LenIndefinite":
 		t.LenMode = lenIndefinite
 	case "Retag":
